@@ -1,5 +1,8 @@
 import Lemmas.GeomRect
 import Lemmas.GeomPoly
+import Lemmas.GeomExt
+import Lemmas.GeomInt64
+import Lemmas.GeomInt64Laws
 /-! # C18 — rectangle predicates and affine matrices obey their set and composition laws
 
 Property theorems only.  The functions named here (`Rect.contains`, `Point.inRect`, `Matrix.multiply`,
@@ -249,6 +252,448 @@ end Bounds
 
 theorem bounds_encloses_rat (p : Polygon Rat) (c : Contour Rat) (hc : c ∈ p) (v : Point Rat) (hv : v ∈ c) :
     v.inRect (Contour.bounds c) = true ∧ v.inRect (Polygon.bounds p) = true := bounds_encloses p c hc v hv
+
+/-! ## Extension (session 4): the rest of the rectangle layer, CONTRAST theorems, representation invariance of the
+    crossing number, tightness of `Bounds`, the source form of `Bounds`, composition of `Transform` -/
+
+section Rectangles2
+variable {α : Type} [CommRing α] [LinearOrder α] [IsStrictOrderedRing α]
+
+/-- `Rect.Expand` -/
+theorem expand_spec (r : Rect α) (p : Point α) :
+    ((r.w < 0 ∨ r.h < 0) → r.expand p = ⟨p.x, p.y, 0, 0⟩) ∧
+    (0 ≤ r.w → 0 ≤ r.h →
+      (r.expand p).x = min r.x p.x ∧ (r.expand p).y = min r.y p.y ∧
+      (r.expand p).right = max r.right p.x ∧ (r.expand p).bottom = max r.bottom p.y ∧
+      0 ≤ (r.expand p).w ∧ 0 ≤ (r.expand p).h) := by
+  constructor
+  · intro h
+    have : (decide (r.w < 0) || decide (r.h < 0)) = true := by simpa using h
+    simp [Rect.expand, this]
+  · intro hw hh
+    have : (decide (r.w < 0) || decide (r.h < 0)) = false := by simp [not_lt.mpr hw, not_lt.mpr hh]
+    simp only [Rect.expand, this, Bool.false_eq_true, if_false, Rect.right, Rect.bottom]
+    refine ⟨trivial, trivial, by abel, by abel, ?_, ?_⟩
+    · have : min r.x p.x ≤ r.x := min_le_left _ _
+      have : r.x + r.w ≤ max (r.x + r.w) p.x := le_max_left _ _
+      linarith
+    · have : min r.y p.y ≤ r.y := min_le_left _ _
+      have : r.y + r.h ≤ max (r.y + r.h) p.y := le_max_left _ _
+      linarith
+
+/-- `Rect.Inset` -/
+theorem inset_spec (r : Rect α) (i : Insets α) :
+    (r.inset i).x = r.x + i.left ∧ (r.inset i).y = r.y + i.top ∧ 0 ≤ (r.inset i).w ∧ 0 ≤ (r.inset i).h ∧
+    (i.left + i.right ≤ r.w → (r.inset i).right = r.right - i.right) ∧
+    (i.top + i.bottom ≤ r.h → (r.inset i).bottom = r.bottom - i.bottom) ∧
+    (r.w < i.left + i.right → (r.inset i).w = 0) ∧ (r.h < i.top + i.bottom → (r.inset i).h = 0) := by
+  simp only [Rect.inset, Insets.width, Insets.height, Rect.right, Rect.bottom]
+  refine ⟨trivial, trivial, le_max_right _ _, le_max_right _ _, ?_, ?_, ?_, ?_⟩
+  · intro h; rw [max_eq_left (by linarith)]; ring
+  · intro h; rw [max_eq_left (by linarith)]; ring
+  · intro h; exact max_eq_right (by linarith)
+  · intro h; exact max_eq_right (by linarith)
+
+end Rectangles2
+
+/-! ### CONTRAST: the variants of the code without the mechanism violate the statements -/
+
+/-- `Rect.Contains` as it was before the repair (far edges minus one) -/
+def containsMinusOne (r i : Rect Rat) : Bool :=
+  if r.empty || i.empty then false
+  else decide (r.x ≤ i.x) && decide (r.y ≤ i.y) && decide (i.x < r.right) && decide (i.y < r.bottom) &&
+    decide (r.x ≤ i.right - 1) && decide (r.y ≤ i.bottom - 1) && decide (i.right - 1 < r.right) &&
+    decide (i.bottom - 1 < r.bottom)
+
+/-- CONTRAST to `contains_iff`: the `-1` test fails the clause in both directions on fractional sizes -/
+theorem contains_minus_one_contrast :
+    (∃ a b : Rect Rat, containsMinusOne a b = true ∧
+      ¬ (b.empty = false ∧ ∀ p : Point Rat, p.inRect b = true → p.inRect a = true)) ∧
+    (∃ a b : Rect Rat, containsMinusOne a b = false ∧
+      (b.empty = false ∧ ∀ p : Point Rat, p.inRect b = true → p.inRect a = true)) := by
+  constructor
+  · refine ⟨⟨0, 0, 10, 10⟩, ⟨0, 0, 21/2, 21/2⟩, ?_, ?_⟩
+    · norm_num [containsMinusOne, Rect.empty, Rect.right, Rect.bottom]
+    · rintro ⟨_, h⟩
+      have h1 := h ⟨41/4, 0⟩ (by norm_num [Point.inRect, Rect.empty, Rect.right, Rect.bottom])
+      norm_num [Point.inRect, Rect.empty, Rect.right, Rect.bottom] at h1
+  · refine ⟨⟨0, 0, 10, 10⟩, ⟨0, 0, 1/2, 1/2⟩, ?_, ?_⟩
+    · norm_num [containsMinusOne, Rect.empty, Rect.right, Rect.bottom]
+    · exact (contains_iff_rat _ _).mp (by norm_num [Rect.contains, Rect.empty, Rect.right, Rect.bottom])
+
+/-- `Rect.Intersects` with closed comparisons -/
+def intersectsClosed (r o : Rect Int) : Bool :=
+  if r.empty || o.empty then false
+  else decide (r.x ≤ o.right) && decide (r.y ≤ o.bottom) && decide (r.right ≥ o.x) && decide (r.bottom ≥ o.y)
+
+/-- CONTRAST to `intersects_iff`: with `<=` in place of `<` abutting rectangles "intersect" without a common point -/
+theorem intersects_closed_contrast :
+    ∃ a b : Rect Int, intersectsClosed a b = true ∧ ¬ ∃ p : Point Int, p.inRect a = true ∧ p.inRect b = true := by
+  refine ⟨⟨0, 0, 1, 1⟩, ⟨1, 0, 1, 1⟩, by decide, ?_⟩
+  rw [← intersects_iff_int]
+  decide
+
+/-- `Matrix.Multiply` as it was before the repair: `TransY` computed from the X-row coefficients -/
+def multiplyOld (m o : Matrix Rat) : Matrix Rat :=
+  { m.multiply o with transY := m.transX * o.scaleX + m.transY * o.skewX + o.transX }
+
+/-- CONTRAST to `transform_multiply`: the old product does not compose -/
+theorem multiply_old_contrast :
+    ∃ (m n : Matrix Rat) (p : Point Rat), (multiplyOld m n).transformPoint p ≠ n.transformPoint (m.transformPoint p) := by
+  refine ⟨Matrix.newTranslation 1 2, Matrix.newTranslation 3 5, ⟨0, 0⟩, ?_⟩
+  norm_num [multiplyOld, Matrix.multiply, Matrix.newTranslation, Matrix.transformPoint]
+
+/-- `Contour.Bounds` without the `1 +` -/
+def boundsNoOne (c : Contour Rat) : Rect Rat :=
+  let b := Contour.bounds c
+  ⟨b.x, b.y, b.w - 1, b.h - 1⟩
+
+/-- CONTRAST to `bounds_encloses`: without the `1 +` the extreme vertices are not `In` the bounds -/
+theorem bounds_without_one_contrast :
+    ∃ (c : Contour Rat) (v : Point Rat), v ∈ c ∧ v.inRect (boundsNoOne c) = false := by
+  refine ⟨[⟨0, 0⟩, ⟨4, 0⟩, ⟨4, 3⟩], ⟨4, 3⟩, by simp, ?_⟩
+  norm_num [boundsNoOne, Contour.bounds, boundsStep, Point.inRect, Rect.empty, Rect.right, Rect.bottom]
+
+section Matrices2
+variable {α : Type} [CommRing α]
+
+/-- the product is associative -/
+theorem multiply_assoc (a b c : Matrix α) : (a.multiply b).multiply c = a.multiply (b.multiply c) := by
+  simp only [Matrix.multiply, Matrix.mk.injEq]
+  refine ⟨?_, ?_, ?_, ?_, ?_, ?_⟩ <;> ring
+
+/-- consecutive incremental transforms compose: translations add, scales multiply, rotations add their angles
+    (for any pairs `(s₁, c₁)`, `(s₂, c₂)`: the pair of the sum is `(s₁c₂ + c₁s₂, c₁c₂ - s₁s₂)`) -/
+theorem incremental_compose (m : Matrix α) (a b a' b' : α) :
+    (m.translate a b).translate a' b' = m.translate (a + a') (b + b') ∧
+    (m.scale a b).scale a' b' = m.scale (a * a') (b * b') ∧
+    (m.rotate a b).rotate a' b' = m.rotate (a * b' + b * a') (b * b' - a * a') := by
+  simp only [Matrix.translate, Matrix.scale, Matrix.rotate, Matrix.mk.injEq]
+  refine ⟨⟨?_, ?_, ?_, ?_, ?_, ?_⟩, ⟨?_, ?_, ?_, ?_, ?_, ?_⟩, ⟨?_, ?_, ?_, ?_, ?_, ?_⟩⟩ <;> first | trivial | ring
+
+/-- `TransformPoint` and the `Point` arithmetic: a translation matrix adds, a scale matrix multiplies
+    coordinate-wise, every matrix is affine (`m(p + q) = m(p) + m(q) - m(0)`), and the cross product of two transformed
+    difference vectors is the determinant times the original cross product -/
+theorem transform_point_arith (m : Matrix α) (p q : Point α) (tx ty : α) :
+    (Matrix.newTranslation tx ty).transformPoint p = p.add ⟨tx, ty⟩ ∧
+    (Matrix.newScale tx tx).transformPoint p = p.mul tx ∧
+    m.transformPoint (p.add q) = ((m.transformPoint p).add (m.transformPoint q)).sub (m.transformPoint ⟨0, 0⟩) ∧
+    ((m.transformPoint p).sub (m.transformPoint ⟨0, 0⟩)).cross ((m.transformPoint q).sub (m.transformPoint ⟨0, 0⟩)) =
+      (m.scaleX * m.scaleY - m.skewX * m.skewY) * p.cross q ∧
+    p.cross q = - q.cross p ∧ p.dot q = q.dot p ∧ (p.add q).sub q = p ∧ p.add p.neg = ⟨0, 0⟩ := by
+  obtain ⟨px, py⟩ := p
+  obtain ⟨qx, qy⟩ := q
+  simp only [Matrix.newTranslation, Matrix.newScale, Matrix.transformPoint, Point.add, Point.sub, Point.mul, Point.neg,
+    Point.cross, Point.dot, Point.mk.injEq]
+  refine ⟨⟨?_, ?_⟩, ⟨?_, ?_⟩, ⟨?_, ?_⟩, ?_, ?_, ?_, ⟨?_, ?_⟩, ⟨?_, ?_⟩⟩ <;> ring
+
+end Matrices2
+
+section Contours2
+variable {α : Type} [Field α] [LinearOrder α] [IsStrictOrderedRing α]
+
+/-- "Polygon Contains agree[s] with the crossing-number definition away from edges": for a point on no edge of any
+    contour, `Polygon.Contains` holds exactly when the ray crosses the outline of SOME contour an odd number of times -/
+theorem polygon_contains_crossing (p : Polygon α) (pt : Point α)
+    (h : ∀ c ∈ p, ∀ e ∈ Contour.edges c, ¬ OnEdge pt e.1 e.2) :
+    Polygon.contains p pt = true ↔
+      ∃ c ∈ p, ((Contour.edges c).countP (fun e => decide (Crosses pt e.1 e.2))) % 2 = 1 := by
+  rw [(evenodd_spec p pt).2]
+  constructor
+  · rintro ⟨c, hc, hcc⟩; exact ⟨c, hc, (contour_contains_crossing c pt (h c hc)).mp hcc⟩
+  · rintro ⟨c, hc, hcc⟩; exact ⟨c, hc, (contour_contains_crossing c pt (h c hc)).mpr hcc⟩
+
+/-- the two halves of the property meet: the outline of a non-empty rectangle, taken as a contour, `Contains` exactly
+    the points that are `In` the rectangle — for EVERY point, those on the outline included (both are half-open the
+    same way) -/
+theorem rect_outline_contains (r : Rect α) (hr : r.empty = false) (pt : Point α) :
+    Contour.contains [r.topLeft, r.topRight, r.bottomRight, r.bottomLeft] pt = pt.inRect r :=
+  Geom.rect_outline_contains r hr pt
+
+/-- the crossing-number answer is a property of the closed outline, not of its representation: it does not depend on
+    the vertex the contour starts from, nor on its orientation; and the single-edge test does not depend on the
+    direction of the edge (no side condition: points on edges included) -/
+theorem contains_representation_invariant (c : Contour α) (k : Nat) (pt cur next : Point α) :
+    Contour.contains (c.rotate k) pt = Contour.contains c pt ∧
+    Contour.contains c.reverse pt = Contour.contains c pt ∧
+    edgeHit pt cur next = edgeHit pt next cur :=
+  ⟨contains_rotate c k pt, contains_reverse c pt, edgeHit_symm pt cur next⟩
+
+/-- `Transform` by a translation matrix moves the polygon and the point together: `Contains` and `ContainsEvenOdd` of
+    the transformed polygon at the transformed point are those of the original (no side condition) -/
+theorem contains_translation_invariant (p : Polygon α) (tx ty : α) (pt : Point α) :
+    let m : Matrix α := Matrix.newTranslation tx ty
+    Polygon.contains (Polygon.transform p m) (m.transformPoint pt) = Polygon.contains p pt ∧
+    Polygon.containsEvenOdd (Polygon.transform p m) (m.transformPoint pt) = Polygon.containsEvenOdd p pt := by
+  intro m
+  have hm : ∀ q : Point α, m.transformPoint q = q.add ⟨tx, ty⟩ := fun q => (transform_point_arith m q q tx ty).1
+  have hc : ∀ c : Contour α, Contour.contains (c.map m.transformPoint) (m.transformPoint pt) = Contour.contains c pt := by
+    intro c
+    rw [hm pt, show c.map m.transformPoint = c.map (·.add ⟨tx, ty⟩) from List.map_congr_left (fun q _ => hm q)]
+    exact contains_translate _ c pt
+  simp only [Polygon.contains, Polygon.containsEvenOdd, Polygon.transform, List.any_map, List.countP_map]
+  constructor
+  · congr 1; funext c; exact hc c
+  · congr 3; funext c; exact hc c
+
+end Contours2
+
+section Bounds2
+variable {α : Type} [CommRing α] [LinearOrder α] [IsStrictOrderedRing α]
+
+/-- **`Bounds` is tight** ("encloses every vertex" and nothing more): the origin of `Contour.Bounds` and its far edges
+    minus one are attained by vertices and no vertex lies beyond them — the bounds are
+    `[min x, max x + 1) × [min y, max y + 1)` -/
+theorem bounds_tight (c : Contour α) (hne : c ≠ []) :
+    let b := Contour.bounds c
+    (∃ v ∈ c, v.x = b.x) ∧ (∃ v ∈ c, v.y = b.y) ∧ (∃ v ∈ c, v.x + 1 = b.right) ∧ (∃ v ∈ c, v.y + 1 = b.bottom) ∧
+    ∀ v ∈ c, b.x ≤ v.x ∧ b.y ≤ v.y ∧ v.x + 1 ≤ b.right ∧ v.y + 1 ≤ b.bottom :=
+  contour_bounds_tight c hne
+
+/-- the driver runs `Contour.Bounds` / `Polygon.Bounds` as the source computes them — the loop started from
+    `(MaxValue, MaxValue, MinValue, MinValue)`, the sizes by `extent` with its guard (whatever the guarded branch
+    computes): for contours within the limits this IS the closed form of `bounds_encloses` / `bounds_tight`, so every
+    vertex is `In` these bounds -/
+theorem bounds_src (maxV minV : α) (widen : α → α → α) (p : Polygon α)
+    (h : ∀ c ∈ p, ∀ v ∈ c, (minV ≤ v.x ∧ v.x ≤ maxV) ∧ (minV ≤ v.y ∧ v.y ≤ maxV)) :
+    Polygon.boundsSrc maxV minV widen p = Polygon.bounds p ∧
+    ∀ c ∈ p, Contour.boundsSrc maxV minV widen c = Contour.bounds c ∧
+      ∀ v ∈ c, v.inRect (Contour.boundsSrc maxV minV widen c) = true ∧
+        v.inRect (Polygon.boundsSrc maxV minV widen p) = true := by
+  refine ⟨polygon_boundsSrc_eq maxV minV widen p h, fun c hc => ?_⟩
+  have e := contour_boundsSrc_eq maxV minV widen c (h c hc)
+  refine ⟨e, fun v hv => ?_⟩
+  rw [e, polygon_boundsSrc_eq maxV minV widen p h]
+  exact bounds_encloses p c hc v hv
+
+/-- the guard of `extent` (`!(hi < lo+size)`) is dead in exact arithmetic: it exists for float rounding only -/
+theorem extent_guard_dead (widen : α → α → α) (lo hi : α) : extent widen lo hi = 1 + hi - lo := extent_eq widen lo hi
+
+/-- `Transform` composes like the matrices: transforming by the identity changes nothing, transforming by `m` and then
+    by `n` is transforming by `m.Multiply(n)` -/
+theorem transform_compose (p : Polygon α) (m n : Matrix α) :
+    Polygon.transform p Matrix.identity = p ∧
+    Polygon.transform (Polygon.transform p m) n = Polygon.transform p (m.multiply n) := by
+  constructor
+  · simp only [Polygon.transform]
+    have : (fun v : Point α => (Matrix.identity : Matrix α).transformPoint v) = id := by
+      funext v; exact (identity_neutral Matrix.identity v).1
+    simp [this]
+  · simp only [Polygon.transform, List.map_map]
+    congr 1; funext c
+    simp only [Function.comp, List.map_map]
+    congr 1; funext v
+    exact (transform_multiply m n v).symm
+
+/-- a polygon that is `Empty` (no vertex at all) contains nothing, has the zero bounds and is its own transform -/
+theorem empty_polygon (p : Polygon α) (m : Matrix α) (h : Polygon.empty p = true) :
+    Polygon.bounds p = Rect.zero ∧ Polygon.transform p m = p ∧ (∀ c ∈ p, c = []) := by
+  have hall : ∀ c ∈ p, c = [] := by
+    cases p with
+    | nil => simp
+    | cons c cs =>
+      simp only [Polygon.empty, List.all_eq_true, List.isEmpty_iff] at h
+      exact h
+  refine ⟨?_, ?_, hall⟩
+  · cases p with
+    | nil => rfl
+    | cons c cs =>
+      simp only [Polygon.bounds]
+      rw [hall c (List.mem_cons_self ..)]
+      have hcs : ∀ c' ∈ cs, c' = [] := fun c' hc' => hall c' (List.mem_cons_of_mem _ hc')
+      clear hall h
+      induction cs with
+      | nil => rfl
+      | cons d ds ih =>
+        simp only [List.foldl_cons]
+        rw [hcs d (List.mem_cons_self ..)]
+        have : (Contour.bounds ([] : Contour α)).union (Contour.bounds []) = Contour.bounds [] := by
+          simp [Contour.bounds, Rect.union, Rect.zero, Rect.empty]
+        rw [this]
+        exact ih (fun c' hc' => hcs c' (List.mem_cons_of_mem _ hc'))
+  · simp only [Polygon.transform]
+    conv => rhs; rw [← List.map_id p]
+    apply List.map_congr_left
+    intro c hc
+    rw [hall c hc]; rfl
+
+end Bounds2
+
+section Sizes
+variable {α : Type} [CommRing α] [LinearOrder α] [IsStrictOrderedRing α]
+
+/-- `Size.ConstrainForHint`: each component is capped by the hint's when that is at least one, else unchanged -/
+theorem constrain_spec (s hint : Size α) :
+    ((s.constrainForHint hint).w = if 1 ≤ hint.w then min s.w hint.w else s.w) ∧
+    ((s.constrainForHint hint).h = if 1 ≤ hint.h then min s.h hint.h else s.h) := by
+  simp only [Size.constrainForHint, ge_iff_le, gt_iff_lt, Bool.and_eq_true, decide_eq_true_eq]
+  constructor
+  · by_cases h1 : 1 ≤ hint.w <;> by_cases h2 : hint.w < s.w <;> simp [h1, h2, le_of_lt, not_lt.mp]
+  · by_cases h1 : 1 ≤ hint.h <;> by_cases h2 : hint.h < s.h <;> simp [h1, h2, le_of_lt, not_lt.mp]
+
+end Sizes
+
+/-- observation (outside the property's text): `Rect.Align` floors the origin but ceils the SIZE, so — unlike its
+    doc comment says — the result need not encompass the original: `(1/2, 0, 1, 1)` aligns to `(0, 0, 1, 1)` -/
+example : (Rect.align floorRat ceilRat ⟨1/2, 0, 1, 1⟩).contains ⟨1/2, 0, 1, 1⟩ = false := by
+  decide +kernel
+
+
+section SetLaws
+variable {α : Type} [CommRing α] [LinearOrder α] [IsStrictOrderedRing α]
+
+/-- `Intersect` is the greatest rectangle contained in both (the dual of `union_smallest_contains`): a rectangle is
+    contained in both operands exactly when it is contained in their intersection -/
+theorem intersect_greatest (a b c : Rect α) :
+    (a.intersect b).contains c = true ↔ a.contains c = true ∧ b.contains c = true := by
+  simp only [contains_iff, intersect_spec, Bool.and_eq_true]
+  constructor
+  · rintro ⟨hc, h⟩; exact ⟨⟨hc, fun p hp => (h p hp).1⟩, ⟨hc, fun p hp => (h p hp).2⟩⟩
+  · rintro ⟨⟨hc, h1⟩, ⟨_, h2⟩⟩; exact ⟨hc, fun p hp => ⟨h1 p hp, h2 p hp⟩⟩
+
+/-- `Intersects` holds exactly when `Intersect` is not empty; both are symmetric, and `Union` is symmetric too -/
+theorem intersect_symm (a b : Rect α) :
+    (a.intersects b = true ↔ (a.intersect b).empty = false) ∧ a.intersects b = b.intersects a ∧
+    a.intersect b = b.intersect a ∧ a.union b = b.union a := by
+  refine ⟨?_, ?_, ?_, ?_⟩
+  · rw [intersects_iff]
+    constructor
+    · rintro ⟨p, h1, h2⟩
+      have : p.inRect (a.intersect b) = true := by rw [intersect_spec, h1, h2]; rfl
+      by_contra he
+      have he' : (a.intersect b).empty = true := by simpa using he
+      simp [Point.inRect, he'] at this
+    · intro he
+      have hne := (Rect.empty_false_iff _).mp he
+      have hin := Rect.corner_in hne
+      rw [← Rect.inRect_iff, intersect_spec, Bool.and_eq_true] at hin
+      exact ⟨_, hin⟩
+  · rw [Bool.eq_iff_iff, intersects_iff, intersects_iff]
+    constructor <;> rintro ⟨p, h1, h2⟩ <;> exact ⟨p, h2, h1⟩
+  · simp only [Rect.intersect, Bool.or_comm a.empty b.empty, max_comm a.x b.x, max_comm a.y b.y,
+      min_comm a.right b.right, min_comm a.bottom b.bottom]
+  · simp only [Rect.union, Bool.and_comm a.empty b.empty, min_comm a.x b.x, min_comm a.y b.y,
+      max_comm a.right b.right, max_comm a.bottom b.bottom]
+    by_cases h1 : a.empty = true <;> by_cases h2 : b.empty = true <;> simp [h1, h2]
+
+/-- `Contains` is a partial order on the non-empty rectangles (reflexive, transitive, antisymmetric), and
+    `Union` / `Intersect` of a non-empty rectangle with itself give it back -/
+theorem contains_order (a b c : Rect α) :
+    (a.empty = false → a.contains a = true) ∧
+    (a.contains b = true → b.contains c = true → a.contains c = true) ∧
+    (a.contains b = true → b.contains a = true → a = b) ∧
+    (a.empty = false → a.union a = a ∧ a.intersect a = a) := by
+  refine ⟨?_, ?_, ?_, ?_⟩
+  · intro h; rw [contains_iff]; exact ⟨h, fun p hp => hp⟩
+  · intro h1 h2
+    rw [contains_iff] at *
+    exact ⟨h2.1, fun p hp => h1.2 p (h2.2 p hp)⟩
+  · intro h1 h2
+    rw [Rect.contains_iff_Contains] at h1 h2
+    obtain ⟨_, _, x1, y1, r1, b1⟩ := h1
+    obtain ⟨_, _, x2, y2, r2, b2⟩ := h2
+    have ex : a.x = b.x := le_antisymm x1 x2
+    have ey : a.y = b.y := le_antisymm y1 y2
+    simp only [Rect.right, Rect.bottom] at r1 r2 b1 b2
+    have ew : a.w = b.w := by linarith [le_antisymm r1 r2]
+    have eh : a.h = b.h := by linarith [le_antisymm b1 b2]
+    cases a; cases b; simp_all
+  · intro h
+    obtain ⟨hw, hh⟩ := Rect.pos_of_not_empty ((Rect.empty_false_iff a).mp h)
+    constructor
+    · simp [Rect.union, h, Rect.right, Rect.bottom]
+    · simp [Rect.intersect, h, Rect.right, Rect.bottom, not_le.mpr hw, not_le.mpr hh]
+
+end SetLaws
+
+/-- the determinant is multiplicative (so a product of invertible matrices is invertible) -/
+theorem det_multiply {α : Type} [CommRing α] (m n : Matrix α) :
+    (m.multiply n).scaleX * (m.multiply n).scaleY - (m.multiply n).skewX * (m.multiply n).skewY =
+      (m.scaleX * m.scaleY - m.skewX * m.skewY) * (n.scaleX * n.scaleY - n.skewX * n.skewY) := by
+  simp only [Matrix.multiply]; ring
+
+
+/-! ### Go `int` as it is: `Int64` with wrap-around
+
+The driver also runs the rectangle layer at `Int64` (stream `rw`), inputs that overflow included.  The laws hold on
+machine integers as long as the far edges `X+Width`, `Y+Height` of the operands do not wrap (`NoWrap`; for `Intersect`
+and `Union`, whose sizes are recomputed as `edge - origin`, as long as all edges lie in `[-2^62, 2^62)`: `Half`); beyond
+that they fail (`int64_wrap_contrast`). -/
+
+/-- the rectangle functions at `Int64` agree with the same functions at `Int` -/
+theorem int64_agrees (a b : Rect Int64) (p : Point Int64) :
+    (b.NoWrap → p.inRect b = p.toInt.inRect b.toInt) ∧
+    (a.NoWrap → b.NoWrap → a.contains b = a.toInt.contains b.toInt ∧ a.intersects b = a.toInt.intersects b.toInt) ∧
+    (a.Half → b.Half → (a.intersect b).toInt = a.toInt.intersect b.toInt ∧ (a.union b).toInt = a.toInt.union b.toInt) :=
+  ⟨inRect_toInt p b, fun ha hb => ⟨contains_toInt a b ha hb, intersects_toInt a b ha hb⟩,
+   fun ha hb => ⟨intersect_toInt a b ha hb, union_toInt a b ha hb⟩⟩
+
+/-- "a.Contains(b) holds exactly when b is non-empty and every point of b is In a" for Go `int` rectangles and Go `int`
+    points, wrap-around semantics, whenever `X+Width` and `Y+Height` of the two rectangles do not overflow -/
+theorem contains_iff_int64 (a b : Rect Int64) (ha : a.NoWrap) (hb : b.NoWrap) :
+    a.contains b = true ↔ b.empty = false ∧ ∀ p : Point Int64, p.inRect b = true → p.inRect a = true := by
+  rw [contains_toInt a b ha hb, contains_iff_int, Rect.empty_toInt]
+  constructor
+  · rintro ⟨he, h⟩
+    refine ⟨he, fun p hp => ?_⟩
+    rw [inRect_toInt p a ha]; rw [inRect_toInt p b hb] at hp; exact h _ hp
+  · rintro ⟨he, h⟩
+    refine ⟨he, fun q hq => ?_⟩
+    obtain ⟨p, rfl⟩ := point_representable q b hb hq
+    rw [← inRect_toInt p a ha]; rw [← inRect_toInt p b hb] at hq; exact h p hq
+
+/-- "a.Intersects(b) exactly when some point is In both", on machine integers without overflow of the far edges -/
+theorem intersects_iff_int64 (a b : Rect Int64) (ha : a.NoWrap) (hb : b.NoWrap) :
+    a.intersects b = true ↔ ∃ p : Point Int64, p.inRect a = true ∧ p.inRect b = true := by
+  rw [intersects_toInt a b ha hb, intersects_iff_int]
+  constructor
+  · rintro ⟨q, h1, h2⟩
+    obtain ⟨p, rfl⟩ := point_representable q b hb h2
+    exact ⟨p, by rw [inRect_toInt p a ha]; exact h1, by rw [inRect_toInt p b hb]; exact h2⟩
+  · rintro ⟨p, h1, h2⟩
+    exact ⟨p.toInt, by rw [← inRect_toInt p a ha]; exact h1, by rw [← inRect_toInt p b hb]; exact h2⟩
+
+/-- "Intersect returns precisely the common points", on machine integers with all edges in `[-2^62, 2^62)` -/
+theorem intersect_spec_int64 (a b : Rect Int64) (ha : a.Half) (hb : b.Half) (p : Point Int64) :
+    p.inRect (a.intersect b) = (p.inRect a && p.inRect b) := by
+  rw [inRect_toInt p _ (intersect_noWrap a b ha hb), intersect_toInt a b ha hb, intersect_spec_int,
+    inRect_toInt p a ha.noWrap, inRect_toInt p b hb.noWrap]
+
+/-- CONTRAST: outside that range the laws fail although no `X+Width` overflows — the recomputed sizes
+    `max(rights) - min(lefts)`, `min(rights) - max(lefts)` wrap: for two small rectangles three quarters of the int range
+    apart the `Union` is `Empty` (it holds no point of its operands) and the `Intersect` is not `Empty` although the
+    rectangles do not intersect -/
+theorem int64_wrap_contrast :
+    ∃ (a b : Rect Int64) (p : Point Int64), a.NoWrap ∧ b.NoWrap ∧
+      p.inRect a = true ∧ p.inRect (a.union b) = false ∧ (a.union b).empty = true ∧
+      a.intersects b = false ∧ (a.intersect b).empty = false := by
+  refine ⟨⟨-9223372036854775808, 0, 5, 1⟩, ⟨4611686018427387904, 0, 5, 1⟩, ⟨-9223372036854775808, 0⟩, ?_, ?_, ?_, ?_, ?_, ?_, ?_⟩
+  · unfold Rect.NoWrap; decide
+  · unfold Rect.NoWrap; decide
+  · decide
+  · decide
+  · decide
+  · decide
+  · decide
+
+/-- exactly the call of the model driver (`Driver/C18.lean`: limits ±`math.MaxFloat64`, the guarded branch of `extent`
+    stubbed): on every polygon of finite float64 coordinates it computes the closed-form bounds, which enclose every
+    vertex -/
+theorem bounds_src_rat (p : Polygon Rat)
+    (h : ∀ c ∈ p, ∀ v ∈ c, (-maxFloat64 ≤ v.x ∧ v.x ≤ maxFloat64) ∧ (-maxFloat64 ≤ v.y ∧ v.y ≤ maxFloat64)) :
+    Polygon.boundsSrc maxFloat64 (-maxFloat64) (fun _ _ => 0) p = Polygon.bounds p ∧
+    ∀ c ∈ p, Contour.boundsSrc maxFloat64 (-maxFloat64) (fun _ _ => 0) c = Contour.bounds c ∧
+      ∀ v ∈ c, v.inRect (Contour.boundsSrc maxFloat64 (-maxFloat64) (fun _ _ => 0) c) = true ∧
+        v.inRect (Polygon.boundsSrc maxFloat64 (-maxFloat64) (fun _ _ => 0) p) = true :=
+  bounds_src maxFloat64 (-maxFloat64) (fun _ _ => 0) p h
+
+theorem rect_outline_contains_rat (r : Rect Rat) (hr : r.empty = false) (pt : Point Rat) :
+    Contour.contains [r.topLeft, r.topRight, r.bottomRight, r.bottomLeft] pt = pt.inRect r :=
+  rect_outline_contains r hr pt
+
+theorem contains_representation_invariant_rat (c : Contour Rat) (k : Nat) (pt : Point Rat) :
+    Contour.contains (c.rotate k) pt = Contour.contains c pt ∧ Contour.contains c.reverse pt = Contour.contains c pt :=
+  ⟨(contains_representation_invariant c k pt pt pt).1, (contains_representation_invariant c k pt pt pt).2.1⟩
 
 /-! non-vacuity: the hypotheses are satisfiable — a point strictly inside the unit-ish square is on no edge and is
     counted once; a rectangle pair with `contains` true exists -/
